@@ -11,11 +11,10 @@
      acyclic/cyclic = no / some type is its own proper ancestor by declared pairs;  forest = wf + acyclic.
    Model (Model/Types.v): parse_types (DomainParser.parse_types), walk / is_sub_type (PDDLType.is_sub_type).
    All theorems are unbounded (any number of types, any depth).  On the current tree (after the repairs D03, D14,
-   D19c) the code satisfies the property on every forest at every site EXCEPT one: the object table that the
-   library's own pipeline hands to an Operator holds the problem's objects only, so a quantifier never ranges
-   over a domain CONSTANT although its type is a subtype of the quantified type (finding D30):
-   C06_quantifier_range_statement (full statement, false of the code), C06_quantifier_range_partial,
-   C06_quantifier_range_refuted. *)
+   D19c, D30) the code satisfies the property on every forest at every site.  D30 (repaired): the object table an
+   Operator's quantifiers range over held the problem's objects only, so a quantifier never ranged over a domain
+   CONSTANT although its type is a subtype of the quantified type; now it is constants + objects
+   (C06_quantifier_range, _objects, _constants, _only; C06_quantifier_range_before_D30_refuted for the pinned code). *)
 From Coq Require Import List String Bool Relations Permutation PrimFloat.
 From Verif Require Import Base.Result Base.Str Base.Sexp Base.PyDict Model.Types Model.Domain Model.Exec
   Model.TypeSites Spec.Pddl Spec.Types
@@ -186,27 +185,47 @@ Theorem C06_sites_fluent_accepts_subtypes : forall gs tr (dom : mdomain) objs f 
 Proof. exact site_fluent_subtype_lemma. Qed.
 
 (* ---------------------------------------------------------------------------------------------- constants (D30) *)
-(* full statement: the objects a quantifier ranges over (the table the pipeline gives to Operator) are the
-   problem's objects AND the domain's constants.  FALSE of the code (Model.TypeSites.pipeline_objects). *)
-Definition C06_quantifier_range_statement : Prop :=
-  forall (dom : mdomain) (objs : pydict string) n t,
-    dget (dupdate (d_consts dom) objs) n = Some t -> dget (pipeline_objects dom objs) n = Some t.
+(* the objects a quantifier ranges over (Operator.quantification_objects, after the repair of D30) are the problem's
+   objects AND the domain's constants: exact content of the table ... *)
+Theorem C06_quantifier_range : forall (dom : mdomain) (objs : pydict string) n,
+  dget (pipeline_objects dom objs) n =
+  match dget (rev objs) n with Some t => Some t | None => dget (d_consts dom) n end.
+Proof. exact pipeline_objects_exact_lemma. Qed.
 
-(* what does hold: every problem object is in the table with its declared type *)
-Theorem C06_quantifier_range_partial : forall (dom : mdomain) (objs : pydict string) o t,
-  dget objs o = Some t -> dget (pipeline_objects dom objs) o = Some t.
+(* ... hence every problem object is in it with its declared type ... *)
+Theorem C06_quantifier_range_objects : forall (dom : mdomain) (objs : pydict string) o t,
+  NoDup (map fst objs) -> dget objs o = Some t -> dget (pipeline_objects dom objs) o = Some t.
 Proof. exact pipeline_objects_partial_lemma. Qed.
 
-(* refutation: a domain with (:constants k - t), a forall over t whose body fails for k only: PDDL says false
-   (Spec.Pddl.holds over constants + objects), the pipeline's evaluation says true.  Replayed on the
-   implementation by the check (cases of kind forest-constants / the witness in findings.d/C06.json). *)
-Theorem C06_quantifier_range_refuted :
+(* ... every constant that no object shadows is in it with its declared type ... *)
+Theorem C06_quantifier_range_constants : forall (dom : mdomain) (objs : pydict string) k t,
+  dget objs k = None -> dget (d_consts dom) k = Some t -> dget (pipeline_objects dom objs) k = Some t.
+Proof. exact pipeline_objects_constants_lemma. Qed.
+
+(* ... and nothing else. *)
+Theorem C06_quantifier_range_only : forall (dom : mdomain) (objs : pydict string) n t,
+  dget (pipeline_objects dom objs) n = Some t -> (exists t', dget objs n = Some t') \/ dget (d_consts dom) n = Some t.
+Proof. exact pipeline_objects_only_lemma. Qed.
+
+(* the pinned code handed the problem's objects only: a domain with (:constants k - t), a forall over t whose body
+   fails for k only: PDDL says false (Spec.Pddl.holds over constants + objects), that evaluation said true
+   (finding D30, repaired; the witness is a regression case of the check). *)
+Theorem C06_quantifier_range_before_D30_refuted :
   exists (dom : mdomain) (objs : objects) (s : state) (c : mcond) (f : form),
     denote_cond c = Some f /\
     (exists k kt, dget (d_consts dom) k = Some kt /\ is_sub_type (d_types dom) kt "t" = true) /\
-    eval_lifted_cond dom 0%float (Some (pipeline_objects dom objs)) s [] c = Ok true /\
+    eval_lifted_cond dom 0%float (Some (pipeline_objects_before_D30 dom objs)) s [] c = Ok true /\
     holds 0%float (d_types dom) (d_consts dom ++ objs) [] s f = false.
-Proof. exact constants_refuted_lemma. Qed.
+Proof. exact constants_before_D30_refuted_lemma. Qed.
+
+(* the same witness on the current table: false without (m k), true with it *)
+Theorem C06_quantifier_range_example :
+  denote_cond w_cond = Some w_form /\
+  eval_lifted_cond w_dom 0%float (Some (pipeline_objects w_dom w_objs)) w_state [] w_cond = Ok false /\
+  holds 0%float (d_types w_dom) (pipeline_objects w_dom w_objs) [] w_state w_form = false /\
+  eval_lifted_cond w_dom 0%float (Some (pipeline_objects w_dom w_objs))
+     {| facts := [("m", ["o"]); ("m", ["k"])]; fluents := [] |} [] w_cond = Ok true.
+Proof. exact constants_example_lemma. Qed.
 
 (* ---------------------------------------------------------------------------------------------- oracle *)
 (* the executable closure the correspondence check uses as its oracle IS the spec relation, for every
@@ -259,8 +278,12 @@ Print Assumptions C06_site_trajectory_fluent.
 Print Assumptions C06_sites_select_subtypes.
 Print Assumptions C06_sites_fact_accepts_subtypes.
 Print Assumptions C06_sites_fluent_accepts_subtypes.
-Print Assumptions C06_quantifier_range_partial.
-Print Assumptions C06_quantifier_range_refuted.
+Print Assumptions C06_quantifier_range.
+Print Assumptions C06_quantifier_range_objects.
+Print Assumptions C06_quantifier_range_constants.
+Print Assumptions C06_quantifier_range_only.
+Print Assumptions C06_quantifier_range_before_D30_refuted.
+Print Assumptions C06_quantifier_range_example.
 Print Assumptions C06_subtypeb_is_closure.
 Print Assumptions C06_oracle_is_closure.
 Print Assumptions C06_oracle_forest.
